@@ -56,3 +56,12 @@ package signature
 //@   loop 2 invariant forall k PublicKey :: inDom(m, k) ==> (exists i int :: 0 <= i && i < len(s.Signatures) && s.Signatures[i].PublicKey == k)
 //@   ensures result ==> (forall j int :: 0 <= j && j < len(pks) ==> (exists i int :: 0 <= i && i < len(s.Signatures) && s.Signatures[i].PublicKey == pks[j]))
 //@   note true only if every listed key signed (the converse, "and nobody else", rests on the size comparison of a set, which is not stated here)
+
+// ---- signing contexts (C09): chain separation ----
+
+//@ func PrepareSignerContext
+//@   props C09
+//@   ensures-local err == nil && defined(opts) && opts.chainSeparation ==> chainContext != "" && len(result0) == len(old(context)) + len(chainContextSeparator) + len(chainContext)
+//@   ensures-local err == nil && defined(opts) && !opts.chainSeparation ==> len(result0) == len(old(context))
+//@   ensures-local err == nil ==> defined(opts) || allowUnregisteredContexts
+//@   note for a context registered with chain separation the prepared context is the raw context followed by the separator and the (non-empty) chain context - stated here by length, which is what distinguishes it from the raw context; an unregistered context is refused unless the process explicitly allows it
